@@ -42,6 +42,8 @@ def obligations(tier):
                     clause="total for every argument list including the empty one (applications with only implicit arguments); an index is reported iff the cursor is at or behind the start of the first argument"))
     out.append(dict(engine="verus", unit="completion", function="get_metadata::projection_field", name="C20/completion/get_metadata_projection_field", source=COMP + "::get_metadata (projection arm)",
                     clause="the metadata lookup for `record.field` is total: a record whose metadata has no entry for the field yields None, no panic"))
+    out.append(dict(engine="verus", unit="completion", function="FindVisitor::visit_ast_type::guard", name="C20/completion/visit_ast_type_guard", source=COMP + "::FindVisitor::visit_ast_type (the guard in front of the dispatch)",
+                    clause="the position search enters a type node iff the cursor is inside its source range, except the two row forms whose ranges are not set"))
     out.append(dict(engine="verus", unit="completion", function="Suggest::on_pattern::As", name="C20/completion/Suggest_on_pattern_as", source=COMP + "::Suggest::on_pattern (arm Pattern::As)",
                     clause="binding the name of an as-pattern never panics, also when the pattern under it does not type check (only the total try_type_of may be used: env_type_of has the precondition `well typed`)"))
     ns = [1, 2, 3] if tier == "quick" else [1, 2, 3, 4]
